@@ -9,6 +9,8 @@
 #include <thread>
 #include <covfie/core/backend/primitive/array.hpp>
 #include <covfie/core/backend/transformer/hilbert.hpp>
+#include <covfie/core/algebra/affine.hpp>
+#include <covfie/core/backend/transformer/affine.hpp>
 #include <covfie/core/backend/transformer/linear.hpp>
 #include <covfie/core/backend/transformer/morton.hpp>
 #include <covfie/core/backend/transformer/nearest_neighbour.hpp>
@@ -250,6 +252,16 @@ int main(int argc, char ** argv) {
         // sides beyond 2^8: any per-view or per-type memo of "the last tile / block visited" would be shared here
         stress_layout<2, cb::hilbert<In<2>, A1>>("hilbert2-700x530", {700, 530}, T, seed);
         stress_layout<2, cb::morton<In<2>, A1, false>>("mortonp2-600x3", {600, 3}, T, seed);
+        {   // an affine layer above the interpolator (the coordinate map is applied per lookup, by every thread)
+            using RS3 = cb::strided<In<3>, A1>;
+            auto f3 = filled<3, RS3>({6, 5, 7});
+            using AL = cb::affine<cb::linear<RS3>>;
+            auto a = covfie::algebra::affine<3>::translation(0.25f, 0.5f, 0.75f);
+            covfie::field<AL> fa(covfie::make_parameter_pack(typename AL::configuration_t(a), std::monostate{}, typename RS3::owning_data_t(f3.backend())));
+            auto mka = [&](rng & r) { covfie::array::array<float, 3> c; c[0] = (float)r.below(5) + 0.25f * (float)r.below(3) - 0.25f + 0.25f; c[1] = (float)r.below(4) + 0.25f * (float)r.below(2); c[2] = (float)r.below(6) + 0.125f * (float)r.below(2);
+                                      c[0] = std::min(c[0], 4.5f); c[1] = std::min(c[1], 3.25f); c[2] = std::min(c[2], 5.0f); return c; };
+            stress("affine-linear-strided3", fa, mka, T, seed);
+        }
         stress_wide<4, double, 3>("strided4-double3", {4, 3, 5, 3}, T, seed);
         stress_wide<4, float, 4>("strided4-float4", {3, 4, 3, 4}, T, seed);
         stress_wide<5, float, 3>("strided5-float3", {3, 2, 3, 2, 3}, T, seed);
